@@ -4,6 +4,7 @@
 package ev
 
 import (
+	"bytes"
 	"crypto/sha256"
 	"encoding/hex"
 	"encoding/json"
@@ -247,7 +248,9 @@ func RunReplays(fn func(raw json.RawMessage, f Failure) error) {
 		var raw struct {
 			Case json.RawMessage `json:"case"`
 		}
-		if err := json.Unmarshal(b, &f); err != nil {
+		dec := json.NewDecoder(bytes.NewReader(b))
+		dec.UseNumber() // op lists are re-marshalled by the packages: keep int64 values exact
+		if err := dec.Decode(&f); err != nil {
 			res[p] = ReplayResult{Inconclusive: true, Msg: err.Error()}
 			continue
 		}
